@@ -139,6 +139,12 @@ def run(chk):
         # does to its input can reach this side)
         declared = {im.name: {sb.name: dict(sb.fields) for sb in im.signals} for im in serde_run.parse(text).unwrap().get_matching_impls("can")}
         res, err = observe(fcp)
+        # generating again from the same object must give the same files (nothing may be consumed or left behind by a generation)
+        res2, err2 = observe(fcp)
+        if (res is None) != (res2 is None) or (res is not None and [(r["bus"], r["contents"]) for r in res] != [(r["bus"], r["contents"]) for r in res2]):
+            fails.append({"kind": "second-generation-from-the-same-object-differs", "schema": text,
+                          "first": None if res is None else [r["bus"] for r in res], "second": None if res2 is None else [r["bus"] for r in res2],
+                          "errors": [repr(err), repr(err2)]})
         frames = []
         after = {im.name: {sb.name: dict(sb.fields) for sb in im.signals} for im in fcp.get_matching_impls("can")}
         if after != declared:
